@@ -924,6 +924,17 @@ class Prog:
                     if pt is not None:
                         return pt
                     defs = self.local_defs(f, expr.id)
+                    if defs and f is fn:
+                        # a comprehension variable is scoped to its comprehension: only the binding of the enclosing one counts
+                        for anc in self.ancestors(expr):
+                            if isinstance(anc, (ast.ListComp, ast.SetComp, ast.DictComp, ast.GeneratorExp)):
+                                own = [(k_, n_) for k_, n_ in defs if k_ in ("comp",) or k_.startswith("unpack")
+                                       if any(n_ is g for g in anc.generators)]
+                                if own:
+                                    defs = own
+                                    break
+                            if isinstance(anc, (ast.FunctionDef, ast.AsyncFunctionDef, ast.Lambda)):
+                                break
                     if defs:
                         key = (f.qual, expr.id)
                         if key in self._inferring:
